@@ -62,6 +62,7 @@ var (
 	errTransportClosed = errors.New("transport is closed")
 	errScriptClose     = errors.New("scripted close error")
 	errScriptDecoy     = errors.New("decoy client type never connects")
+	errScriptPoll      = errors.New("scripted poll error")
 )
 
 // event is one entry of the recorded history of a case.
@@ -93,6 +94,7 @@ type attemptState struct {
 	endWaited  bool
 	delivered  int // messages handed over on this stream
 	announced  bool
+	polls      int // Impl.Poll calls on this transport
 	nh         client.NotificationHandler
 	ph         client.ProtoHandler
 }
@@ -244,8 +246,31 @@ func (i *impl) Subscribe(ctx context.Context, q client.Query) error {
 	if err := ctx.Err(); err != nil && !i.as.deaf {
 		return err
 	}
+	if d := time.Duration(i.as.script.SubDelay) * Unit; d > 0 {
+		// the write of the subscription request takes its time
+		i.w.record("sub-wait", i.as.idx, "")
+		if i.as.deaf {
+			time.Sleep(d)
+		} else if !wait(ctx, i.as.closed, d) {
+			if err := ctx.Err(); err != nil {
+				return err
+			}
+			return errTransportClosed
+		}
+	}
 	if i.as.script.Sub == "err" {
 		return i.w.scriptedErr("subscribe", i.as.script.SubErr, errScriptSubscribe)
+	}
+	if i.as.script.Sub == "park" && !i.as.deaf {
+		// the peer does not read: the request cannot be written until the
+		// context ends (nobody else holds this Impl yet)
+		i.w.record("sub-park", i.as.idx, "")
+		select {
+		case <-ctx.Done():
+			return ctx.Err()
+		case <-i.as.closed:
+			return errTransportClosed
+		}
 	}
 	i.w.mu.Lock()
 	i.as.nh, i.as.ph = q.NotificationHandler, q.ProtoHandler
@@ -255,7 +280,48 @@ func (i *impl) Subscribe(ctx context.Context, q client.Query) error {
 	return nil
 }
 
-func (i *impl) Poll() error { return nil }
+// Poll is the write of a poll request (Attempt.Poll). It may be called by any
+// goroutine of the application while Subscribe runs elsewhere.
+func (i *impl) Poll() error {
+	w, as := i.w, i.as
+	if w.isAborted() {
+		<-w.never
+	}
+	mode := as.script.Poll
+	w.mu.Lock()
+	as.polls++
+	w.events = append(w.events, event{Kind: "impl-poll", Attempt: as.idx, At: w.now(), Note: mode})
+	w.mu.Unlock()
+	ret := func(err error) error {
+		w.record("impl-poll-ret", as.idx, fmt.Sprint(err))
+		return err
+	}
+	if i.isClosed() {
+		return ret(errTransportClosed)
+	}
+	ctx := as.ctx
+	switch mode {
+	case "err":
+		return ret(errScriptPoll)
+	case "delay":
+		if wait(ctx, as.closed, time.Duration(as.script.PollDelay)*Unit) {
+			return ret(nil)
+		}
+	case "block":
+		select {
+		case <-ctx.Done():
+		case <-as.closed:
+		}
+	case "deaf":
+		<-as.closed
+	default:
+		return ret(nil)
+	}
+	if i.isClosed() {
+		return ret(errTransportClosed)
+	}
+	return ret(ctx.Err())
+}
 
 // Close unblocks a pending Recv, as closing a real connection does. It reports
 // an error of the scripted kind (every call does), but always closes.
